@@ -44,7 +44,7 @@ class CheckC13(core.Check):
     cases_per_shard = 12
     eval_stat = "strings"
 
-    def _strings(self):
+    def _strings(self, cfg="A"):
         rnd = random.Random(self.seed * 611953 + 13)
         quick = self.tier == "quick"
         mods = modifier_lists()
@@ -82,6 +82,18 @@ class CheckC13(core.Check):
             for p in ("XX", "N", "X1X1"):
                 out.append("Noise_%spsk%s_25519_AESGCM_SHA256" % (p, num))
                 out.append("Noise_%spsk1+psk%s_25519_AESGCM_SHA256" % (p, num))
+        # repeated / concatenated pattern names, duplicates at any distance
+        for p in PATTERN_NAMES:
+            q = rnd.choice(PATTERN_NAMES)
+            for hsf in (p * 2, p * 3, p + q, p * 2 + "psk0", p + q + "psk1", p + "psk0" + p, p + "+" + p):
+                out.append("Noise_%s_%s_%s_%s" % (hsf, rnd.choice(DHS), rnd.choice(CIPHERS), rnd.choice(HASHES)))
+        mods5 = ["psk0", "psk1", "psk2", "psk3", "fallback"]
+        for a in mods5:
+            for b in mods5:
+                if a == b:
+                    continue
+                for lst in ([a, b, a], [a, a, b], [b, a, a], [a, b, b, a], [a, b, "psk4", a], [b, a, "psk4", "psk2" if "psk2" not in (a, b) else "psk3", a]):
+                    out.append("Noise_%s%s_%s_%s_%s" % (rnd.choice(PATTERN_NAMES), "+".join(lst), rnd.choice(DHS), rnd.choice(CIPHERS), rnd.choice(HASHES)))
         # prefix traps
         for hsf in ["X1X1", "X1X", "X1", "X", "XK1", "XK", "Xpsk1", "XKpsk1", "XK1psk1", "IK1", "I1K", "I1K1", "I1", "I", "IKpsk1", "I1psk1", "NK1psk0", "N1", "K1", "KK1K", "XXX", "NNN", "XX1X", "X1X1X", "1X", "xx", "Xx", "NNpsk0psk1", "NN+psk0", "NNpsk0+", "NN+", "NNfallback", "NNFallback", "NNhfs", "NNpsk0+hfs", "NNpsk", "NNps", "NNp"]:
             for tail in ["25519_AESGCM_SHA256", "P256_XChaChaPoly_BLAKE2b", "448_ChaChaPoly_SHA512", "25519+Kyber1024_AESGCM_SHA256"]:
@@ -107,6 +119,14 @@ class CheckC13(core.Check):
         for _ in range(3000 if quick else 60000):
             ln = rnd.randrange(0, 50)
             out.append("".join(rnd.choice(ALPHABET) for _ in range(ln)))
+        if cfg == "B":
+            # the hfs build has a different name parser: Noise_<pattern>hfs_<dh>+<kem>_<cipher>_<hash>
+            for p in PATTERN_NAMES:
+                for m in ("hfs", "hfs+psk0", "psk1+hfs", "hfs+hfs", "fallback+hfs", "hfs+psk0+psk1"):
+                    for dhf in ("25519+Kyber1024", "P256+Kyber1024", "25519", "25519+Kyber512", "25519+", "+Kyber1024", "25519+Kyber1024+Kyber1024", "448+Kyber1024"):
+                        out.append("Noise_%s%s_%s_%s_%s" % (p, m, dhf, rnd.choice(CIPHERS), rnd.choice(HASHES)))
+                out.append("Noise_%s_25519+Kyber1024_ChaChaPoly_SHA256" % p)
+                out.append("Noise_%spsk0_25519+Kyber1024_ChaChaPoly_SHA256" % p)
         # deduplicate, keep order
         seen = set()
         res = []
@@ -116,19 +136,28 @@ class CheckC13(core.Check):
                 res.append(s)
         return res
 
+    def _strs(self, cfg):
+        cache = self.__dict__.setdefault("_cache", {})
+        if cfg not in cache:
+            cache[cfg] = self._strings(cfg)
+        return cache[cfg]
+
     def plan(self):
-        self._all = self._strings()
-        return [(i,) for i in range(0, len(self._all), CHUNK)]
+        return [(i, "A") for i in range(0, len(self._strs("A")), CHUNK)]
+
+    def extra_cfg_plans(self):
+        if self.tier != "thorough":
+            return []
+        return [(cfg, [(i, cfg) for i in range(0, len(self._strs(cfg)), CHUNK)]) for cfg in ("B", "D")]
 
     def build(self, desc):
-        if not hasattr(self, "_all"):
-            self._all = self._strings()
         i = desc[0]
-        c = Case("parse-%d" % i, desc)
-        names = self._all[i:i + CHUNK]
+        cfg = desc[1] if len(desc) > 1 else "A"
+        c = Case("parse-%s-%d" % (cfg, i), desc)
+        names = self._strs(cfg)[i:i + CHUNK]
         for nm in names:
             c.op("parse", name=hx(nm.encode("utf-8")) if nm else "-")
-        c.info = {"names": names}
+        c.info = {"names": names, "cfg": cfg}
         return c
 
     def judge(self, case, events, death):
@@ -141,7 +170,7 @@ class CheckC13(core.Check):
             if not e.label.isdigit():
                 continue
             nm = names[int(e.label)]
-            v = recognise(nm, self.cfg)
+            v = recognise(nm, case.info.get("cfg", "A"))
             if e.panic:
                 r.foreign_dev("C10", "parse panicked")
                 continue
@@ -187,12 +216,14 @@ class CheckC13(core.Check):
                     probs.append("hash %s != %s" % (kv.get("hash"), v.hash))
                 if kv.get("name") != exp_name:
                     probs.append("name not verbatim")
+                if "kem" in kv and kv.get("kem") != (v.kem or "none"):
+                    probs.append("kem %s != %s" % (kv.get("kem"), v.kem))
                 if probs:
                     r.viol("C13|fields|%s" % probs[0].split(" ")[0], "parsed value of %r names other components: %s" % (nm, "; ".join(probs)))
                 elif v.kind == "valid":
                     r.stats["fields_checked"] += 1
             if v.kind != "unspecified":
-                r.keys.add(nm)
+                r.keys.add((case.info.get("cfg", "A"), nm))
                 r.nontrivial = True
         return r
 
